@@ -7,6 +7,10 @@ CLAIMED = {
          "The configuration half is what the simulator owns; the value half is seeded sampling of DynNode trees (scalars of all widths, four string widths, byte containers, arrays, objects). Known findings KF-XML-EMPTY-CONTAINER, KF-CSV-EMPTY-TABLE, KF-JSON-BOMLESS-DETECT are avoided in 63 of 64 runs."),
  "C02": ("exploration", "seeded simulation: storage-corruption faults (bit flips, set, truncate, duplicated/lost/garbage blocks, zeroed ranges, inflated length fields, nesting bombs, pure garbage) on a simulated file written by the real writer, delivered through memory and seeded stream entries (file/pipe, delivery sizes, chunk knobs) into same-shape, other-shape and std-container targets under both policies; oracle = only std::exception, no terminate/signal/sanitizer report, deterministic basic-block and stream-call budgets, allocator ledger bound", "6 C02",
          "Loader half of the property; the string converters are only reached as a by-product (direct feed of corrupted cell texts, labelled input generation). malloc inside RapidJSON/pugixml is not faulted or metered. Stack: 8 MiB worker stack, documents <= 64 KiB."),
+ "C03": ("exploration", "seeded simulation: generated request histories (keyed reads in any order, repeats, absent keys, VisitKeys, nested objects/arrays left partly read, members never requested) executed by a user-type program model against an object document followed by a sentinel, through memory and seeded stream entries (file/pipe, delivery sizes, chunk knobs, padding that slides the object across the chunk boundary); reference = the generated tree, checked after every request", "6 C03",
+         "On a non-seekable stream a request that needs a seek may end in a SerializationException instead of the value (stated relaxation). Regions of C01's known findings (XML empty containers, inexact JSON doubles) are not generated."),
+ "C05": ("exploration", "seeded simulation: typed-corruption faults (a stored value replaced by a string/array/object/null/float/out-of-range number/bin/array-of-bytes) under both Skip policies, differential against the same load of the unfaulted document through memory and seeded stream entries; Required() on the offended members must be the only validation errors", "6 C05",
+         "Offence kinds are restricted per archive to definite mismatches (e.g. XML cannot tell an object from an array, a CSV cell is always a valid string). The unfaulted load is the specification for the neighbours."),
  "C10": ("exploration", "seeded simulation: differential memory-load vs stream-load of the same bytes under seeded delivery schedules of a simulated streambuf (file/pipe, 1..300 bytes per underflow), chunk-size knobs and storage-corruption faults; stream save vs memory save", "6 C10",
          "Samples the space of (document, corruption, delivery schedule, knob) tuples; the memory outcome is the specification, so an error shared by both readers is invisible. Trusted: libstdc++ iostreams, RapidJSON, pugixml, the harness models."),
 }
@@ -23,7 +27,7 @@ NA = {
  "C16": "pure number<->text conversion",
  "C17": "pure function of (document, validators, maxValidationErrors); the error map lives and dies inside one call",
 }
-PENDING = {k: 'claimed in DESIGN.md; its check is still under construction in this session and is not registered until it runs clean' for k in ['C03','C05','C13','C18','C19','C20']}
+PENDING = {k: 'claimed in DESIGN.md; its check is still under construction in this session and is not registered until it runs clean' for k in ['C13','C18','C19','C20']}
 
 def main():
     commits = subprocess.run(["git", "-C", "/repo", "log", "--format=%H %s"], stdout=subprocess.PIPE, text=True).stdout.splitlines()
